@@ -1497,6 +1497,14 @@ func (c *CAManager) AuthorizeAndSignCertificate(csr *x509.CertificateRequest, au
 		if err := allow.NodeWriteAllowed(v.Agent, &authzContext); err != nil {
 			return nil, err
 		}
+
+		// Verify that the DC in the agent URI matches us, like every other
+		// identity kind: we must not vouch for an agent of another datacenter.
+		dc := c.serverConf.Datacenter
+		if v.Datacenter != dc {
+			return nil, connect.InvalidCSRError("SPIFFE ID in CSR from a different datacenter: %s, "+
+				"we are %s", v.Datacenter, dc)
+		}
 	case *connect.SpiffeIDMeshGateway:
 		// TODO(peering): figure out what is appropriate here for ACLs
 		v.GetEnterpriseMeta().FillAuthzContext(&authzContext)
